@@ -21,3 +21,4 @@ CONSTANTS
  AliasModes = {"bind", "none", "use"}
  Chunks = FALSE
  EndpointProps = {"C05", "C06", "C07", "C08", "C12", "C13", "C14", "C15", "C19"}
+ Record = TRUE
